@@ -187,9 +187,11 @@ def dec(s: str) -> str:
     return "" if s == "-" else "".join(chr(int(x)) for x in s.split(","))
 
 
-def run_impl(lines, facts_path):
+def run_impl(lines, facts_path, env_extra=None):
+    env = {"VERIF_FACTS": facts_path}
+    env.update(env_extra or {})
     r = run([PY, os.path.join(HERE, "impl_runner.py")], input="\n".join(lines) + "\n",
-            timeout=3600, env={"VERIF_FACTS": facts_path})
+            timeout=3600, env=env)
     out = r.stdout.split("\n")
     if out and out[-1] == "":
         out.pop()
@@ -213,6 +215,131 @@ def run_model(lines):
 
 
 # ------------------------------------------------------------------------------------------------
+# what every property's command asks in addition: the same calls in other circumstances
+
+def generic_replays(pid, cases, lines, impl, facts_path, seed, quick):
+    """The implementation side of the property's own stream once more - in the opposite order in a fresh process (with a
+    digest of the in-memory registries and of pycountry's database before and after), under an optimising interpreter
+    (python -OO: no asserts, no docstrings), as the first use of a fresh process from several threads at once, and in pairs
+    under line-level interleavings (each pair asked again alone afterwards).  What a call returns may depend on none of that.
+    -> (violations, counts)"""
+    import props
+    vio, counts = [], {}
+    idx = [i for i, c in enumerate(cases) if c.post is None and c.fn not in props.ORDER_SENSITIVE][:150000]
+    if not idx or pid == "C14":
+        return vio, counts
+    conc = [i for i in idx if cases[i].fn not in props.NOT_CONCURRENT]
+
+    def rec(kind, i, observed, expected, **extra):
+        c = cases[i]
+        r = {"property": pid, "kind": kind, "stream": c.tag, "check": "order", "call": c.fn, "args": c.args,
+             "args_shown": [props.show_arg(x) for x in c.args], "observed_implementation": observed,
+             "expected_by_spec": expected, "seed": seed}
+        r.update(extra)
+        return r
+
+    # 1. opposite order, registry digest around it
+    back = run_impl(["history_probe\tbegin"] + [lines[i] for i in reversed(idx)] + ["history_probe\tend"], facts_path)
+    counts["opposite_order"] = len(idx)
+    if back[0] != back[-1]:
+        # which call did it: bisect over prefixes of the (reversed) stream
+        seq = [lines[i] for i in reversed(idx)]
+        lo, hi = 0, len(seq)            # invariant: prefix of length lo leaves the digest alone, prefix hi changes it
+        steps = 0
+        while hi - lo > 1 and steps < 20 and len(seq) <= 40000:
+            mid = (lo + hi) // 2
+            r = run_impl(["history_probe\tbegin"] + seq[:mid] + ["history_probe\tend"], facts_path)
+            if r[0] != r[-1]:
+                hi = mid
+            else:
+                lo = mid
+            steps += 1
+        j = list(reversed(idx))[hi - 1]
+        vio.append(rec("history", j, "the digest of the in-memory registries, indexes, algorithm table and pycountry's database "
+                       "changed while this stream of calls ran" + (" (first by this call)" if hi - lo == 1 else ""),
+                       "unchanged: the data are loaded at import and are what the files say, whatever is asked"))
+    for i, b2 in zip(reversed(idx), back[1:-1]):
+        if b2 != impl[i]:
+            vio.append(rec("history", i, b2 + "   (same stream of calls in the opposite order)",
+                           impl[i] + "   (what the call returned in the first order)"))
+            if len(vio) >= 5:
+                break
+    # 2. optimising interpreter
+    sub = idx[: (15000 if quick else 60000)]
+    oo = run_impl([lines[i] for i in sub], facts_path, env_extra={"PYTHONOPTIMIZE": "2"})
+    counts["python_OO"] = len(sub)
+    n0 = len(vio)
+
+    def crash_class(x):
+        # which foreign exception a malformed direct call dies of may differ (an assert guards it by default): a crash is a crash
+        return re.sub(r"(CRASH|RUNNER-ERROR)( \w+)+", r"\1", x)
+    for i, b2 in zip(sub, oo):
+        if "AssertionError" in impl[i]:
+            continue      # an assert of the library guards this (malformed, direct) call by default: -OO removes it by definition
+        if crash_class(b2) != crash_class(impl[i]):
+            vio.append(rec("environment", i, b2 + "   (under python -OO)", impl[i] + "   (under the default interpreter)"))
+            if len(vio) - n0 >= 3:
+                break
+    # 3. first use of a fresh process from several threads at once
+    step = max(1, len(conc) // 64)
+    cold = conc[::step][:64]
+    env = dict(os.environ)
+    env.update({"PYTHONPATH": REPO, "PYTHONHASHSEED": "0", "VERIF_REPO": REPO, "VERIF_FACTS": facts_path})
+    counts["cold_start_threads"] = 0
+    for _round in range((2 if quick else 5) if cold else 0):
+        r = subprocess.run([PY, os.path.join(HERE, "coldstart.py")], input=json.dumps({"lines": [lines[i] for i in cold], "threads": 8}),
+                           capture_output=True, text=True, env=env, timeout=900)
+        if r.returncode != 0:
+            raise RuntimeError("coldstart.py failed: " + r.stderr[-400:])
+        got = json.loads(r.stdout.strip().split("\n")[-1])
+        counts["cold_start_threads"] += len(cold)
+        bad = [(i, g) for i, g in zip(cold, got) if g != impl[i]]
+        if bad:
+            i, g = bad[0]
+            vio.append(rec("schedule", i, str(g) + f"   (first use of a fresh process, 8 threads released together; {len(bad)} of {len(cold)} calls differ)",
+                           impl[i] + "   (asked alone)"))
+            break
+    # 4. pairs of calls under line-level interleavings
+    npairs = 4 if quick else 16
+    pick = conc[:: max(1, len(conc) // (2 * npairs))][: 2 * npairs]
+    pairs = [(pick[k], pick[k + 1]) for k in range(0, len(pick) - 1, 2)] + ([(pick[0], pick[0])] if pick else [])
+
+    def desc(i):
+        return {"kind": "runner", "fn": cases[i].fn, "args": cases[i].args}
+    shards = [pairs[k::4] for k in range(4) if pairs[k::4]]
+    procs = []
+    for k, sh in enumerate(shards):
+        job = {"pairs": [[desc(a), desc(b)] for a, b in sh], "seed": seed + k, "random_schedules": 2, "max_schedules": 80 if quick else 300,
+               "recheck": True}
+        pr = subprocess.Popen([PY, os.path.join(HERE, "sched.py"), "explore"], stdin=subprocess.PIPE, stdout=subprocess.PIPE,
+                              stderr=subprocess.PIPE, text=True, env=env)
+        pr.stdin.write(json.dumps(job))
+        pr.stdin.close()
+        procs.append(pr)
+    counts["interleaved_runs"] = 0
+    for pr in procs:
+        out = pr.stdout.read()
+        pr.wait(timeout=1800)
+        try:
+            res = json.loads(out.strip().split("\n")[-1])
+        except Exception:  # noqa: BLE001
+            raise RuntimeError("sched.py failed: " + pr.stderr.read()[-400:])
+        counts["interleaved_runs"] += res.get("runs", 0)
+        for f in res.get("fails", [])[:1]:
+            if "error" in f:
+                # a pair that could not be explored (e.g. more line events than the interleaver follows): counted, not judged
+                counts["pairs_not_explored"] = counts.get("pairs_not_explored", 0) + 1
+                counts["pairs_not_explored_why"] = f["error"][:120]
+                continue
+            vio.append({"property": pid, "kind": "schedule", "stream": "interleaved pair", "check": "order",
+                        "call": f["calls"][0]["fn"] + " || " + f["calls"][1]["fn"],
+                        "args": [], "args_shown": [[props.show_arg(x) for x in d["args"]] for d in f["calls"]],
+                        "calls": f["calls"], "schedule": f["schedule"],
+                        "observed_implementation": json.dumps(f.get("asked_again_alone_afterwards") or f["interleaved"])[:600]
+                        + ("   (both calls asked again alone after the interleaved run)" if f.get("asked_again_alone_afterwards") else "   (interleaved)"),
+                        "expected_by_spec": json.dumps(f["solo"])[:600] + "   (each call alone)", "trace_tail": f.get("trace_tail"), "seed": seed})
+    return vio, counts
+
 
 def load_known():
     p = os.path.join(ROOT, "known_findings.json")
@@ -285,7 +412,7 @@ def check(pid, tier, seed):
 
     stats = {"evaluations": 0, "distinct": set(), "nontrivial": set(), "by_stream": {}, "samples": [],
              "outcomes": {}}
-    stats_order = 0
+    stats_order = {}
     if model_ok:
         facts = json.load(open(facts_path))
         rng = random.Random(seed)
@@ -298,7 +425,7 @@ def check(pid, tier, seed):
                 c = json.loads(l)
                 cases.insert(0, props.Case(c["kind"], c["fn"], c["args"], "corpus", True))
         lines = ["\t".join([c.fn, *c.args]) for c in cases]
-        mlines = ["\t".join([c.fn, *(c.margs if c.margs is not None else c.args)]) for c in cases]
+        mlines = ["noop" if c.kind == "self" else "\t".join([c.fn, *(c.margs if c.margs is not None else c.args)]) for c in cases]
         try:
             impl = run_impl(lines, facts_path)
             for i, c in enumerate(cases):
@@ -306,28 +433,15 @@ def check(pid, tier, seed):
                     impl[i], margs = c.post(impl[i])
                     mlines[i] = "\t".join([c.fn, *margs]) if margs is not None else "noop"
             model = run_model(mlines)
-            # the same calls once more, in the opposite order, in a fresh process: what a call returns may not depend
-            # on what was asked before (a verdict memoised under too small a key, scratch state, a mutated registry)
-            idx = [i for i, c in enumerate(cases) if c.post is None and c.fn not in props.ORDER_SENSITIVE][:150000]
-            if idx and pid not in ("C14",):
-                back = run_impl([lines[i] for i in reversed(idx)], facts_path)
-                for i, b2 in zip(reversed(idx), back):
-                    if b2 != impl[i]:
-                        c = cases[i]
-                        violations.append({"property": pid, "kind": "history", "stream": c.tag, "check": "order", "call": c.fn,
-                                           "args": c.args, "args_shown": [props.show_arg(x) for x in c.args],
-                                           "observed_implementation": b2 + "   (same stream of calls in the opposite order)",
-                                           "expected_by_spec": impl[i] + "   (what the call returned in the first order)",
-                                           "seed": seed})
-                        if len(violations) >= 5:
-                            break
-                stats_order = len(idx)
-            else:
-                stats_order = 0
         except Exception as e:  # noqa: BLE001
             broken.append({"what": "harness", "detail": str(e)[-600:]})
             impl = model = []
-            stats_order = 0
+        if impl:
+            try:
+                gv, stats_order = generic_replays(pid, cases, lines, impl, facts_path, seed, eff_tier == "quick")
+                violations.extend(gv)
+            except Exception as e:  # noqa: BLE001
+                broken.append({"what": "replays in other circumstances", "detail": str(e)[-600:]})
         seen_v = set()
         for c, a, m in zip(cases, impl, model):
             stats["evaluations"] += 1
@@ -342,6 +456,8 @@ def check(pid, tier, seed):
             if len(stats["samples"]) < 12 and (stats["evaluations"] % max(1, len(cases) // 12) == 0):
                 stats["samples"].append({"fn": c.fn, "args": [props.show_arg(x) for x in c.args],
                                          "implementation": a, "model_or_spec": m, "stream": c.tag})
+            if c.kind == "self" and not a.startswith(("RUNNER-ERROR", "UNKNOWN-FUNCTION")):
+                continue       # a call that is only compared with itself in other circumstances (order, -OO, threads, schedules)
             if a.startswith(("RUNNER-ERROR", "UNKNOWN-FUNCTION")) or m.startswith(("DRIVER-ERROR", "UNKNOWN-FUNCTION")):
                 broken.append({"what": "harness", "detail": f"{c.fn}: impl={a} model={m}"})
                 continue
@@ -426,7 +542,7 @@ def check(pid, tier, seed):
             "samples": stats["samples"] or [{"note": "no cases were run (model build failed)"}],
             "streams": stats["by_stream"],
             "outcome_histogram": stats["outcomes"],
-            "order_replay_calls": stats_order,
+            "replays_in_other_circumstances": stats_order,
             "translator": {"changed": tr.get("changed", []), "drift": drift},
             "effective_tier": eff_tier,
             "broken": broken,
